@@ -258,9 +258,9 @@ func init() {
 			"where that algorithm is unambiguous; (f) 12 long messages keep the ids they have alone while 24 goroutines compile them concurrently. distinct = distinct message source; non-trivial = has a placeholder or >= 12 bytes of text",
 		N: func(tier string) int {
 			if tier == "thorough" {
-				return 40000
+				return 200000
 			}
-			return 2000
+			return 4000
 		},
 		Setup: func(tier string, seed uint64, config string) string {
 			if why := ref.SelfTestMsgID(); why != "" {
